@@ -115,7 +115,31 @@ def r20_2(rep, M, rid):
                 if "pbc" in src["params"] and not isinstance(col, ast.Constant):
                     loopvars = [t2 for t2, _ in conds if isinstance(t2, ast.For)]
                     if not loopvars:
-                        per_pbc = True
+                        # a mask selects columns only if it is boolean: ASE also accepts 0/1 flags, and an integer array in this position is a
+                        # list of column *numbers* ((0, 0, 1) wraps columns 0, 0 and 1)
+                        def boolish(exprs, q):
+                            for e2 in exprs:
+                                for x in ast.walk(e2):
+                                    if isinstance(x, ast.Call):
+                                        if isinstance(x.func, ast.Attribute) and x.func.attr == "astype" and x.args and norm(x.args[0]) in ("bool", "'bool'", "np.bool_", "numpy.bool_"):
+                                            return True
+                                        if any(k.arg == "dtype" and norm(k.value) in ("bool", "'bool'", "np.bool_", "numpy.bool_") for k in x.keywords):
+                                            return True
+                                        if isinstance(x.func, ast.Name) and x.func.id == "bool":
+                                            return True
+                                    if isinstance(x, ast.Compare) or (isinstance(x, ast.UnaryOp) and isinstance(x.op, ast.Not)):
+                                        return True
+                            return False
+                        exp = GEO + ".expand_pbc"
+                        erets = [r2.value for r2 in ast.walk(M.func(exp)) if isinstance(r2, ast.Return) and r2.value is not None]
+                        efl = Flow(M.func(exp))
+                        via_expand = any(isinstance(c2, ast.Call) and exp in M.callees_of_call(fq, c2) for e2 in src["exprs"] for c2 in ast.walk(e2))
+                        exp_bool = bool(erets) and all(boolish(efl.slice(r2, efl.node_of(next(rr for rr in ast.walk(M.func(exp)) if isinstance(rr, ast.Return) and rr.value is r2)))["exprs"] + [r2], exp) for r2 in erets)
+                        if boolish(src["exprs"] + [col], fq) or (via_expand and exp_bool):
+                            per_pbc = True
+                        else:
+                            why = (f"`{norm(col)}` is used as a column mask but is never converted to a boolean array (expand_pbc returns np.array(flags) of whatever "
+                                   "type the caller passed): with the 0/1 spelling of pbc that ASE accepts, the flags are taken as column numbers")
             if under_wrap and per_pbc:
                 rep.ok(rid, construct + " only under `wrap` and the component's own pbc flag")
             elif not under_wrap:
